@@ -82,10 +82,14 @@ def _bounded_by_room(fn, defs, o, depth=0):
     callee = t.get('callee') or ''
     if callee.rsplit('::', 1)[-1] == 'min' and len(t['args']) == 2:
         return any(_bounded_by_room(fn, defs, a, depth + 1) for a in t['args'])
+    if callee.rsplit('::', 1)[-1] in ('saturating_sub', 'wrapping_sub', 'checked_sub') and len(t['args']) == 2 and \
+            callee.rsplit('::', 1)[-1] == 'saturating_sub':
+        # size.saturating_sub(offset): equal to size - offset under the invariant, 0 otherwise - never more than the room
+        return _reads_field(fn, defs, t['args'][0], 'size') and _reads_field(fn, defs, t['args'][1], 'offset')
     return False
 
 
-def prove_diskslice(facts):
+def prove_diskslice(facts, extra_fields=None):
     """(proved, field ranges, detail lines)"""
     detail = []
     writers = {}
@@ -123,6 +127,7 @@ def prove_diskslice(facts):
         pnames = {NEW.locals[i].get('name'): i for i in range(1, NEW.argc + 1)}
         from rules.c17 import validated_bpb_fields
         base = validated_bpb_fields(facts, with_struct_invariants=False)
+        base.update(extra_fields or {})  # store-hull invariants of other private fields (a geometry cached in a struct)
         for caller in facts.fns.values():
             if not caller.crate.startswith('fatfs'):
                 continue
@@ -217,7 +222,14 @@ def prove_diskslice(facts):
 
 
 def run(ctx, rep):
-    ok, ranges, detail = prove_diskslice(ctx.facts)
+    hull = {}
+    try:
+        from rules import fieldinv
+        from rules.c17 import validated_bpb_fields
+        hull, _d = fieldinv.infer(ctx.facts, validated_bpb_fields(ctx.facts, with_struct_invariants=False))
+    except Exception:
+        hull = {}
+    ok, ranges, detail = prove_diskslice(ctx.facts, hull)
     rep.oblige('INV.DiskSlice', DS, ok=ok, nontrivial=True,
                sample={'struct': DS, 'invariant': 'offset <= size; begin, size < 2^48', 'proof': detail[:12]})
     if not ok:
